@@ -66,7 +66,7 @@ def relayout(a, layout, pad=1.0e6):
     other elements are `pad`, Fortran order, negative strides."""
     a = np.ascontiguousarray(a)
     R, C = a.shape
-    pad = a.dtype.type(pad)
+    pad = a.dtype.type(99 if a.dtype.kind == "i" else pad)
     if layout in (None, "c"):
         return a
     if layout == "strided_cols":
@@ -160,6 +160,7 @@ def fornav_all(cols, rows, data, dtype, rps, p, mwm, shape, fill, want_fp=True, 
     """One-shot fornav + weights/accums + footprints + write_grid_image_single, all from the real code."""
     kw = wkw(p)
     dt = np.dtype(dtype)
+    fill = int(fill) if dt.kind == "i" else float(fill)      # the fused-type wrappers want a Python int for integer data
     d = np.ascontiguousarray(data.astype(dt))
     cols = np.ascontiguousarray(cols, dtype=np.float64)
     rows = np.ascontiguousarray(rows, dtype=np.float64)
@@ -170,7 +171,7 @@ def fornav_all(cols, rows, data, dtype, rps, p, mwm, shape, fill, want_fp=True, 
     a = _Shape()
     a.shape = tuple(shape)
     kws = dict(kw)
-    if fill_kw and not np.isnan(fill):
+    if fill_kw and (dt.kind == "i" or not np.isnan(fill)):
         kws["fill"] = fill
 
     def oneshot(cc, rr, dd):
@@ -199,7 +200,7 @@ def fornav_all(cols, rows, data, dtype, rps, p, mwm, shape, fill, want_fp=True, 
             res["oneshot_masked"] = err(e)
     w = np.zeros(shape, np.float32)
     acc = np.zeros(shape, np.float32)
-    pyfill = float(fill)
+    pyfill = fill
     try:
         ok = _fornav.fornav_weights_and_sums_wrapper(cols, rows, d, w, acc, pyfill, pyfill, rows_per_scan=rps,
                                                      maximum_weight_mode=bool(mwm), **kw)
@@ -232,6 +233,8 @@ def run_scene(c):
     lons, lats, data = unhex2(c["lons"]), unhex2(c["lats"]), unhex2(c["data"])
     fill = float.fromhex(c.get("fill", "nan"))
     dt = np.dtype(c["dtype"])
+    fill = int(fill) if dt.kind == "i" else float(fill)
+    explicit_fill = not c.get("dask_fill_default", dt.kind != "i" and np.isnan(fill))    # False: fill_value is left at None
     rps = int(c["rps"])
     p = c["params"]
     kw = wkw(p)
@@ -259,7 +262,7 @@ def run_scene(c):
                                  xr.DataArray(da.from_array(la, chunks=(in_rows, C)), dims=("y", "x")))
             rs = dask_ewa.DaskEWAResampler(sw, area)
             kws = dict(kw)
-            if not np.isnan(fill):
+            if explicit_fill:
                 kws["fill_value"] = fill
             out = rs.resample(da.from_array(dd, chunks=(in_rows, C)), rows_per_scan=rps, chunks=out_chunks,
                               maximum_weight_mode=mwm, persist=persist, **kws)
@@ -287,7 +290,7 @@ def run_scene(c):
         for call in (c["history"] if rs is not None else []):
             dd = d * dt.type(call["scale"]) + dt.type(call["shift"])
             kws = dict(kw)
-            if not np.isnan(fill):
+            if explicit_fill:
                 kws["fill_value"] = fill
                 dd = np.where(d == dt.type(fill), dt.type(fill), dd)
             oc = tuple(tuple(int(v) for v in ax) for ax in call["out_chunks"])
@@ -335,7 +338,7 @@ def run_scene(c):
     res["tasks"] = sorted([[k[1], k[2], k[3], v[3].start, v[3].stop, v[4].start, v[4].stop, v[5][1]] for k, v in tasks.items()])
     if c.get("want_sub_fp"):
         sub = []
-        pyfill = float(fill)
+        pyfill = fill
         y0 = 0
         for nr in out_chunks[0]:
             x0 = 0
